@@ -153,7 +153,8 @@ def run_cases(name, text, timeout=900):
     try:
         r = subprocess.run(
             "ulimit -s unlimited 2>/dev/null; exec timeout %d coqc -Q . BT -w -all Cases/%s.v" % (timeout, name),
-            shell=True, cwd=COQ, capture_output=True, text=True)
+            shell=True, cwd=COQ, capture_output=True, text=True,
+            env=dict(os.environ, OCAMLRUNPARAM="s=8M,h=256M"))
         return r.returncode, r.stdout + r.stderr
     finally:
         for ext in (".v", ".vo", ".vok", ".vos", ".glob", ".aux"):
@@ -165,7 +166,7 @@ def run_cases(name, text, timeout=900):
             os.remove(aux)
 
 
-def run_cases_parallel(items, timeout=900, jobs=16):
+def run_cases_parallel(items, timeout=900, jobs=12):
     """items: [(name, text)] -> [(name, rc, out)] evaluated concurrently."""
     from concurrent.futures import ThreadPoolExecutor
     with ThreadPoolExecutor(jobs) as ex:
